@@ -91,7 +91,7 @@ CLAIMED = {
    design="6/C15"),
  "C16": dict(
    technique="Coq proof over Gallina models of namespacing (id shift) and stitching (combine), flat imports and import trees + whole validator with generated import files (depth 1-3, diamonds, identical entries) vs the Coq models",
-   text="20 theorems in Properties/C16_deep.v about Model/ImportsDeep.v (import trees: C16_deep_conservative: on trees without nested imports the verdict equals the flat model's; C16_deep_bad_import_rejected: acceptance implies that every entry at every depth is readable, its connections target the imported schema and add a checkpoint of ITS importer, targets are distinct and the file with its own imports is accepted; C16_deep_cycle_rejected / _cyclic_not_accepted: the combined schema is acyclic, so a cycle closed through a nested connection is rejected; C16_deep_first_entry / _later_entry / _nested_connection_adds: what a first, a repeated and a nested entry stitch; concrete diamond accepted, nested cycle rejected) and 23 theorems in Properties/C16.v about Model/Imports.v: C16_bad_import_rejected (unreadable / invalid import, target not in the imported schema, added dependency not a native checkpoint), C16_namespacing_imported/_denotes/_native and C16_shift_valid (an imported valid schema stays valid in its namespace; native lookups unchanged), C16_connection_adds / _adds_checkpoint / _checkpoint_holders / _other_actions (one connection adds exactly the dependencies of the added checkpoint to its target and to nothing else; exact iff per stitching step, C16_every_step_fresh shows the hypotheses hold at every step of combine; for the whole combine a lower bound C16_connection_adds_combined + C16_combined_keeps: the closed-form iff for interacting connections is not proved), C16_cycle_through_connection_rejected, C16_scope_through_connection. Tie: importing scenarios with 1-2 generated importable files, schema-qualified references in both spellings, 0-2 connections per import on actions with/without checkpoint and on checkpoints, and 7 kinds of single faults.",
+   text="20 theorems in Properties/C16_deep.v about Model/ImportsDeep.v (import trees: C16_deep_conservative: on trees without nested imports the verdict equals the flat model's; C16_deep_bad_import_rejected: acceptance implies that every entry at every depth is readable, its connections target the imported schema and add a checkpoint of ITS importer, targets are distinct and the file with its own imports is accepted; C16_deep_cycle_rejected / _cyclic_not_accepted: the combined schema is acyclic, so a cycle closed through a nested connection is rejected; C16_deep_first_entry / _later_entry / _nested_connection_adds: what a first, a repeated and a nested entry stitch; concrete diamond accepted, nested cycle rejected) and 23 theorems in Properties/C16.v about Model/Imports.v: C16_bad_import_rejected (unreadable / invalid import, target not in the imported schema, added dependency not a native checkpoint), C16_namespacing_imported/_denotes/_native and C16_shift_valid (an imported valid schema stays valid in its namespace; native lookups unchanged), C16_connection_adds / _adds_checkpoint / _checkpoint_holders / _other_actions (one connection adds exactly the dependencies of the added checkpoint to its target and to nothing else; exact iff per stitching step, C16_every_step_fresh shows the hypotheses hold at every step of combine; for the whole combine the closed form is proved in Properties/C16_closed.v: C16_closed_dep / C16_closed_mentions characterise Dep and Mentions of the combined schema exactly, through the closure MentionsX of the plain union under checkpoint connections; C16_closed_imported_action, _native_action, _connection_target(_only): under native_nests_native a connection's target depends on exactly what it depended on before, what the added checkpoint mentions, and what connections onto checkpoints it holds add -- and nothing else changes; a counterexample shows the extra hypothesis is needed), C16_cycle_through_connection_rejected, C16_scope_through_connection. Tie: importing scenarios with 1-2 generated importable files, schema-qualified references in both spellings, 0-2 connections per import on actions with/without checkpoint and on checkpoints, and 7 kinds of single faults.",
    note="Trusted: coqc kernel + vm_compute (case files); scenario generator/renderer/mutators; Model/Rules.v and Model/Imports.v are tied to the Python by differential testing bounded by the generator. Cyclic imports are neither generated nor modelled; pipeline rules of imported files are outside the import models (valid pipelines inside imported files are generated). Known finding: rules about imported entities are not re-validated in the importing context.",
    design="6/C16"),
  "C08": dict(
